@@ -307,7 +307,7 @@ Theorem index_prefix_rejected d b i :
   decode_index_rest d b = Ok (i, []) ->
   forall p q, b = p ++ q -> q <> [] -> exists e, decode_index d p = Err e.
 Proof.
-  unfold decode_index_rest, run_result, decode_index, index_from_reader. intros E p q Hb Hq.
+  unfold decode_index_rest, run_result, decode_index, index_from_reader_v. intros E p q Hb Hq.
   unfold bind in E.
   destruct (next Fixed b) as [[[oe|er|pp] s1] a1] eqn:E1; try discriminate.
   destruct oe as [e1|]; [|discriminate].
